@@ -169,6 +169,58 @@ def make_scenarios(ctx, count):
     return scns
 
 
+def make_quick_first(ctx, count):
+    """an interface whose first session is an enumerator's quick discovery only (the icon is fetched through that service), ended
+    by Resets of both services in some order; the platform's icon changes; a mapper's topology session then reassembles the
+    new one"""
+    scns = []
+    for i in range(count):
+        rng = G.rng_for(ctx.seed, "C08q", i)
+        mtu = rng.choice([576, 1500, 1500, 9000])
+        P = min(mtu - 34, 0x3FFF)
+        cfg = G.rand_cfg(rng, mtu=mtu)
+        net = G.Net(rng, cfg["mac"])
+        glob = G.rand_global(rng, icon_size=rng.choice([1, P, P + 1, 3000, 2 * P + 5]))
+        m = rng.randrange(len(net.mappers))
+        s = H.Scenario("lq%d" % i)
+        s.iface(0, **H.iface_kw(cfg)).glob(**G.global_kw(glob))
+        s.add("OPT sleep=0")
+        reqs = []
+        quick = set()
+        seq = rng.randint(1, 50000)
+
+        def feed(fr, info):
+            s.frame(0, fr)
+            reqs.append(info)
+        if rng.random() < 0.6:
+            feed(G.f_discover(rng, net, m=m, tos=1), ("other",))
+        for off in rng.choice([[0], [0, P], [0, 0], [P]]):
+            seq += 1
+            feed(W.qlt(net.own, net.mappers[m], seq, 0x0E, off, tos=1), ("other",))
+        if rng.random() < 0.3:
+            feed(G.f_probe(rng, net), ("other",))
+        for t in rng.choice([[1, 0], [1, 1, 0], [0, 1, 0], [1, 0, 0], [1, 0, 1]]):
+            feed(G.f_reset(rng, net, m=m if rng.random() < 0.8 else None, tos=t), ("other",))
+        g2 = dict(glob)
+        g2.update(icon_seed=rng.randint(1, 2 ** 31), icon_size=rng.choice([1, P - 1, 2500, 3 * P]), _icon_cache=None, icon=None)
+        s.add("GSET icon=%s" % G.global_kw(g2)["icon"])
+        switch_at = len(reqs)
+        feed(G.f_discover(rng, net, m=m, tos=0), ("other",))
+        d = data_for(g2, 0x0E)
+        off = 0
+        while True:
+            seq += 1
+            feed(W.qlt(net.own, net.mappers[m], seq, 0x0E, off), ("reasm2", 0x0E, off, seq))
+            ln = min(P, max(0, len(d) - off))
+            if len(d) - off <= ln or off + ln > 0xFFFF:
+                break
+            off += ln
+        s.meta = dict(reqs=reqs, glob=glob, mtu=mtu, own=cfg["mac"], globs=[glob, g2], switch_at=switch_at, mtu_at=None, mtu2=None,
+                      quick=quick, repeats=[], quick_first=True)
+        scns.append(s)
+    return scns
+
+
 def make_session_scenarios(ctx, count):
     """ordinary multi-mapper sessions (Discovers of both services, Emits, Probes, Queries, Resets) with QueryLargeTlv
     requests sprinkled in from whoever is talking; every topology-service request is judged by the same per-call oracle"""
@@ -281,6 +333,8 @@ def monitor(scn, sobj, rep, sf, ck):
             rep.violation("C08:reassembly", "scenario %s: mapper loop over type %#x (size %d, mtu %d) reassembled %d bytes in %d "
                           "chunks; equal=%s more-flags=%s" % (scn.sid, typ, len(d), mtu, len(got), len(chunks), got == d,
                                                               [c[2] for c in chunks]), replay=sobj.text())
+    if sobj.meta.get("quick_first") and calls:
+        rep.count("icon_reassembled_after_a_quick_discovery_only_session")
     for how in sobj.meta.get("repeats", ()):
         rep.count("request_repeated:" + how)
     rep.evaluations += calls
@@ -308,7 +362,7 @@ def run(ctx):
     rep.assumptions = ["the icon is changed only across Resets (it is cached per session by design)",
                        "requests are judged for the topology-discovery service (in the quick-discovery service only: sequence number 0 is not answered); sizes above 32768 are outside the quantifier"]
     binary, plainf = H.build_many(ctx.work, [dict(flavour="asan"), dict(flavour="plain")])
-    scns = make_scenarios(ctx, ctx.n(600, 15000)) + make_session_scenarios(ctx, ctx.n(600, 15000))
+    scns = make_scenarios(ctx, ctx.n(600, 15000)) + make_session_scenarios(ctx, ctx.n(600, 15000)) + make_quick_first(ctx, ctx.n(100, 2000))
     run_monitored(ctx, binary, scns, monitor, tag="qlt")
     # the same requests without red zones: a wrong length/flag decision that makes the sanitizer kill the child
     # before anything is sent becomes an observable wrong response here
@@ -318,6 +372,7 @@ def run(ctx):
     rep.need("reassemblies", c.get("reassemblies", 0), 1200)
     rep.need("reassemblies_3plus_chunks", c.get("reassemblies_3plus_chunks", 0), 50)
     rep.need("types:unknown", c.get("types:unknown", 0), 100)
+    rep.need("icon_reassembled_after_a_quick_discovery_only_session", c.get("icon_reassembled_after_a_quick_discovery_only_session", 0), 100)
     for how in ("same", "fresh", "after-query", "after-emit"):
         rep.need("request_repeated:" + how, c.get("request_repeated:" + how, 0), 50)
     rep.need("seq_zero_requests:quick-discovery", c.get("seq_zero_requests:quick-discovery", 0), 100)
